@@ -325,7 +325,7 @@ NonUniform23 == << <<1, 2, 4>>, <<-1, 0, 2, 3>> >>
 McSolveGrids == { U(1, 1), U(2, 1), U(2, 2) }                \* solve mode, explored exhaustively (results branch)
 QuickSolveGrids == { U(1, 1), U(2, 1), U(2, 2), U(3, 2) }    \* solve mode, case generation only
 ThoroughSolveGrids == QuickSolveGrids \cup { NonUniform23, U(3, 3) }
-ThoroughMcSolveGrids == McSolveGrids \cup { U(3, 2) }
+ThoroughMcSolveGrids == McSolveGrids \cup { U(3, 1), << <<1, 2, 4>>, <<-1, 0, 2>> >> }
 DefectGrids == { Shifted33 }
 
 (***************************************************************************)
